@@ -10,6 +10,9 @@ CONSTANTS
   NEndpoints = 8
   Kinds = {"echo"}
   NOptions = 2
+  Statuses = {204}
+  PlainShare = 0
+  NForwarding = 1
   UnderscoreNames = FALSE
 INVARIANT GeneratedAreWellFormed
 INVARIANT EncodingsAgree
